@@ -370,11 +370,15 @@ qb_rb_space_free(struct qb_ringbuffer_s * rb)
 	} else if (write_size < read_size) {
 		space_free = (read_size - write_size) - 1;
 	} else {
-		if (rb->notifier.q_len_fn && rb->notifier.q_len_fn(rb->notifier.instance) > 0) {
-			space_free = 0;
-		} else {
-			space_free = rb->shared_hdr->word_size;
-		}
+		/*
+		 * Equal pointers always mean "empty": the margin kept by
+		 * qb_rb_chunk_alloc() never lets write_pt catch up with
+		 * read_pt. (The notifier's count must not be consulted here:
+		 * in overwrite mode it also counts chunks that were
+		 * overwritten, and taking an emptied ring for a full one made
+		 * qb_rb_chunk_alloc() fail.)
+		 */
+		space_free = rb->shared_hdr->word_size;
 	}
 
 	/* word -> bytes */
